@@ -137,6 +137,21 @@ func runOne(t *testing.T, prop string, seed uint64, tier string, tapes map[strin
 	return
 }
 
+// warmup executes one throw-away run so that process-wide one-time effects
+// inside mtail (sync.Once bodies, lazily initialised package state) have
+// happened before any measured run: otherwise the first run of a process
+// would pass through yield points that later runs never see, and a seed
+// would not mean the same execution in every process.
+func warmup(t *testing.T, prop, tier string) {
+	if os.Getenv("VERIF_WARMUP") == "0" {
+		return
+	}
+	old := os.Getenv("VERIF_AVOID")
+	os.Setenv("VERIF_AVOID", "")
+	runOne(t, prop, 0x5eed, tier, nil, false)
+	os.Setenv("VERIF_AVOID", old)
+}
+
 // TestWorker is the entry point used by /verif/check:
 //
 //	VERIF_PROP      property id
@@ -194,11 +209,13 @@ func TestWorker(t *testing.T) {
 		if rf.Tapes == nil {
 			rf.Tapes = map[string][]int{}
 		}
+		warmup(t, rf.Property, tier)
 		res := runOne(t, rf.Property, rf.Seed, tier, rf.Tapes, trace)
 		w.Write(jsonLine(res))
 		return
 	}
 
+	warmup(t, prop, tier)
 	var first, count uint64
 	if _, err := fmt.Sscanf(os.Getenv("VERIF_SEEDS"), "%d:%d", &first, &count); err != nil {
 		t.Fatalf("VERIF_SEEDS: %v", err)
